@@ -249,6 +249,12 @@ def two_level(F, cat):
             if first and second:
                 out.append((adt, first, second, b))
                 break
+        else:
+            # index() is not in the recognised shape (which R-CONCAT then reports): fall back to
+            # the declaration order of the two storage fields so that the instance is not lost
+            fields = [f["name"] for f in F.adts[adt]["variants"][0]["fields"]] if F.adts[adt]["variants"] else []
+            if len(fields) == 2 and cands:
+                out.append((adt, fields[0], fields[1], cands[0]))
     return out
 
 
